@@ -161,8 +161,34 @@ def gen_document(tier):
     return doc, count
 
 
+def gen_images_document():
+    """Four frames over two pictures: the first picture is used by three frames."""
+    doc = Document("text")
+    body = doc.body
+    body.clear()
+    u1 = doc.add_file(str(SAMPLES / "image.png"))
+    u2 = doc.add_file(str(SAMPLES / "image2.jpg"))
+    for i, u in enumerate((u1, u2, u1, u1)):
+        p = Paragraph(f"picture {i}")
+        p.append(Frame.image_frame(u, name=f"fr{i}", size=("2cm", "2cm"), anchor_type="as-char"))
+        body.append(p)
+    return doc
+
+
+def image_frames(root):
+    """(frame name, number of draw:image children, each with a reference or embedded data)."""
+    out = []
+    for fr in root.iter("{%s}frame" % NS["draw"]):
+        imgs = [c for c in fr if c.tag == "{%s}image" % NS["draw"]]
+        ok = all(im.get("{%s}href" % NS["xlink"]) or any(isinstance(k.tag, str) and k.tag.endswith("}binary-data") for k in im) for im in imgs)
+        out.append((fr.get("{%s}name" % NS["draw"]), len(imgs), ok))
+    return out
+
+
 def open_seed(seed):
     kind, name = seed
+    if kind == "generated-images":
+        return gen_images_document()
     if kind == "generated":
         return gen_document(name)[0]
     if kind == "template":
@@ -273,6 +299,11 @@ def work(seed):
                             classes.add(cls)
                             fail(site, cls, "paragraph-text", a, b, "readable-text-differs", part=n, paragraph_index=i)
         else:
+            # pictures: every frame keeps its image (embedded or referenced) in the flat export
+            want_fr = [f for part in ("styles.xml", "content.xml") if part in ref for f in image_frames(ref[part]) if f[1]]
+            got_fr = [f for f in image_frames(got["flat"]) if f[1]]
+            if [(n, k) for n, k, _ in got_fr] != [(n, k) for n, k, _ in want_fr] or not all(ok for _, _, ok in got_fr):
+                fail(site, "flat", "frames-and-images", want_fr[:8], got_fr[:8], "picture-frames-differ")
             # (the flat export rebuilds draw:image elements: paragraphs inside them are not compared)
             rp = (doc_view(ref["styles.xml"], True)[0] if "styles.xml" in ref else []) + doc_view(ref["content.xml"], True)[0]
             gp = doc_view(got["flat"], True)[0]
@@ -360,7 +391,7 @@ def run(prop, tier, vseed):
     base = tempfile.mkdtemp(prefix="odfdo_verif_", dir="/dev/shm" if os.path.isdir("/dev/shm") else None)
     os.environ["MC_TMP"] = base
     try:
-        seeds = [("generated", tier)] + [("template", t) for t in ("text", "spreadsheet", "presentation", "drawing")]
+        seeds = [("generated", tier), ("generated-images", None)] + [("template", t) for t in ("text", "spreadsheet", "presentation", "drawing")]
         files = sorted(p.name for p in SAMPLES.iterdir() if p.suffix in (".odt", ".ods", ".odp", ".odg"))
         if tier == "quick":
             files = [f for f in files if f != "big.ods"]
